@@ -293,6 +293,8 @@ class Mon:
                 self.resolve("PUBCOMP", i, body, oev, what)
                 return
             self.nontrivial.add("unsolicited")
+            if k == "PUBACK":
+                self.inorder = False   # a spurious PUBACK: the broker is not "acknowledging in order" (it moves last_puback)
             if not (st == "ERR" and body == unsol):
                 self.v("C10", "%s: unsolicited ack answered %s %s (expected ERR %s)" % (what, st, body, unsol))
             return
@@ -545,19 +547,43 @@ def file_hash(p):
     return h.hexdigest()
 
 
+def all_known():
+    ks = list(lib.known_findings())
+    extra = os.environ.get("VERIF_CLIENT_KNOWN_EXTRA")   # proposed entries, for testing before the lead commits them
+    if extra and os.path.exists(extra):
+        ks += json.load(open(extra)).get("findings", [])
+    return ks
+
+
 def known_entries(prop):
-    return [k for k in lib.known_findings() if k.get("property") == prop and k.get("status") == "known"]
+    return [k for k in all_known() if k.get("property") == prop and k.get("status") == "known"]
 
 
-def known_match(entry, history):
+_KCACHE = {}
+
+
+def known_batch(mexe, entry, histories):
+    """evaluate the entry's predicate on many histories with one driver run (fills the cache)"""
+    name = entry.get("predicate")
+    todo = [h for h in histories if (name, "\n".join(h)) not in _KCACHE]
+    if not name or not todo:
+        return
+    rc, out, _ = lib.run_on_text(mexe, "\n".join("\n".join(h) for h in todo) + "\n", args=["known", name])
+    if rc == 0 and len(out) == len(todo):
+        for h, o in zip(todo, out):
+            _KCACHE[(name, "\n".join(h))] = o.strip() == "K=1"
+
+
+def known_match(mexe, entry, history):
     """A known finding is identified by an executable predicate over the op history, computed by
-    the extracted Coq predicate (ocaml driver, `KNOWN <name>` mode)."""
+    the extracted Coq predicate (ocaml driver, `known <name>` mode; Coq: Client/Run4.v)."""
     name = entry.get("predicate")
     if not name:
         return False
-    mexe, _, _ = drivers()
-    rc, out, _ = lib.run_on_text(mexe, "\n".join(history) + "\n", args=["known", name])
-    return rc == 0 and out and out[-1].strip() == "K=1"
+    key = (name, "\n".join(history))
+    if key not in _KCACHE:
+        known_batch(mexe, entry, [history])
+    return _KCACHE.get(key, False)
 
 
 def shrink(iexe, history, prop, sig):
@@ -669,7 +695,7 @@ def full_run(ctx, mexe, iexe):
                         hh = hh or hashlib.md5("\n".join(h).encode()).digest()
                         seen_nt[p].add(hh)
                 for (p, txt) in m.viol:
-                    if len(res["viol"][p]) < 40:
+                    if len(res["viol"][p]) < 20000:
                         res["viol"][p].append({"history": h, "text": txt})
                 if len(res["samples"]) < 6 and (res["evaluations"] in (1, 5000) or (g.startswith("rand") and res["groups"][g] == 2)):
                     res["samples"].append({"group": g, "ops": h[:40], "impl_answers": a[:40]})
@@ -690,7 +716,7 @@ def full_run(ctx, mexe, iexe):
 
 def cached_run(ctx, mexe, iexe):
     key = hashlib.sha256(("%d|%s|%s|%s|%s|%s" % (ctx.seed, ctx.tier, file_hash(mexe), file_hash(iexe), file_hash(os.path.abspath(__file__)),
-                                              json.dumps(lib.known_findings(), sort_keys=True))).encode()).hexdigest()[:24]
+                                              json.dumps(all_known(), sort_keys=True))).encode()).hexdigest()[:24]
     path = os.path.join(CDIR, "run-%s.json" % key)
     if os.path.exists(path) and not os.environ.get("VERIF_CLIENT_NOCACHE"):
         try:
@@ -762,9 +788,13 @@ def run(ctx):
         groups.setdefault(v["text"].split(":")[0][:60], []).append(v)
     viols = sorted(r["viol"][prop], key=lambda v: len(v["history"]))
     done_known = set()
+    kentries = known_entries(prop)
+    for k in kentries:
+        known_batch(mexe, k, [v["history"] for v in viols])
+    ctx.cov["monitor_violations_seen"] = len(viols)
     for v in viols:
         h = v["history"]
-        kn = [k for k in known_entries(prop) if known_match(k, h)]
+        kn = [k for k in kentries if known_match(mexe, k, h)]
         if kn:
             for k in kn:
                 if k["id"] not in done_known:
@@ -778,7 +808,7 @@ def run(ctx):
         rc2, model, _ = lib.run_on_text(mexe, "\n".join(small) + "\n")
         mon = monitor_history(small, impl)
         txt = next((t for (p, t) in mon.viol if p == prop), v["text"])
-        kn = [k for k in known_entries(prop) if known_match(k, small)]
+        kn = [k for k in kentries if known_match(mexe, k, small)]
         if kn:
             for k in kn:
                 ctx.known_finding(k["line"])
